@@ -10,7 +10,8 @@ from .common import loc
 
 PID = "C14"
 LEVEL = "proof"
-TECHNIQUE = "exhaustive AST-derived schema model (E1) + closed-form family rules; no code executed"
+TECHNIQUE = ("exhaustive AST-derived schema model (E1) + closed-form family rules; generator side: abstract evaluation (E2) of "
+             "generate_models on synthetic definitions; nothing of the repository is executed")
 
 
 def check(rep, ctx):
@@ -34,6 +35,13 @@ def check(rep, ctx):
     R_KEYU = rep.rule("C14-key-unique", "an API key belongs to exactly one API", floor=80)
     R_RR = rep.rule("C14-req-resp", "requests and responses exist for exactly the same versions", floor=80)
 
+    # generator side (anchor codegen/generate_schema.py): what it emits for small synthetic definitions is coherent in the same sense
+    from ..gen_tables import generated_modules
+    R_GEN = rep.rule("C14-generator", "generate_models, evaluated by the abstract interpreter on synthetic definitions, emits for every declared "
+                     "version -- requests and responses alike -- classes that all carry the module's version, flexibility, key and header", floor=15)
+    for row in generated_modules(ctx):
+        rep.check(R_GEN, row["ok"], construct="codegen.generate_schema:generate_models", stmt=row["case"], message=row["message"],
+                  file="codegen/generate_schema.py", line=0)
     families = collections.defaultdict(dict)  # (api, type) -> version -> top class
     for mname, m in sorted(S.modules.items()):
         tops = S.top_level(m)
